@@ -1,4 +1,5 @@
 import F3.Proofs.EquivSys
+import F3.Proofs.EquivHost
 /-!
 # C12 — a node never self-equivocates on the wire, across requests, rebroadcasts and restarts
 
@@ -183,5 +184,179 @@ example :
     let ops : List Op := [.broadcast ⟨1, 1, 0, 1, 1⟩ 0, .stop, .restart, .broadcast ⟨9, 1, 0, 1, 1⟩ 0,
                           .purge 5 [], .stop, .restart, .broadcast ⟨1, 1, 0, 1, 2⟩ 0]
     ¬ RunOk ownAll (Sys.init 0) ops := by decide
+
+/-! ## Host level: the floor hypothesis discharged
+
+`RunOk` above contains `s.floor ≤ m.inst` for every request.  The theorems of this section are about
+`F3.EquivHost.hrun` (`F3/Model/EquivHost.lean`): the certificate store, the participant's current
+instance, the builders handed to the embedder, the purge goroutine and the runner's start, with the
+`Sys` of `Model/Equiv.lean` as a component.  A host history induces a `Model/Equiv.lean` history
+(`EquivHost.trace`), and that history satisfies `RunOk` — proved, not assumed (`host_run_admissible`).
+
+Hypotheses left (`HostOk`, independent of the state): only the node signs with its own identities
+(`sign … sender …` has `own sender`, a peer message has not), and no builder requested before a restart
+is signed after it (`restart false`).  Built into the model (see the header of `Model/EquivHost.lean` for
+the Go lines): the certificate store is durable and its latest instance never decreases; `wal.Purge` is
+only ever called with `k - 5` for a stored certificate `k > 5`; the runner starts the participant at
+`latest + 1` (`InitialInstance` for an empty store); during a run the participant's instance moves only to
+`k + 1 >` current for a stored certificate `k`, or by one after its decision was offered to the store. -/
+section HostLevel
+open F3.EquivHost
+
+/-- **The caller keeps every request at or above the floor.**  After any host history: the participant's
+instance and every outstanding builder are at or above the purge epoch as of the last restart; no builder
+is ahead of the participant; the purge epoch is 0 or at least 6 below the instance the store expects
+next, which is where the next restart puts the participant. -/
+theorem host_floor_invariant (own : Nat → Bool) (l : Peer) (first : Nat) (hops : List HostOp)
+    (hok : HostOk own hops) :
+    let s := hrun (HState.init l first) hops
+    s.sys.floor ≤ s.cur ∧ (∀ b ∈ s.out, s.sys.floor ≤ b.inst ∧ b.inst ≤ s.cur) ∧
+    s.sys.floor ≤ s.sys.purged ∧ (s.sys.purged = 0 ∨ s.sys.purged + 6 ≤ s.next) ∧ s.cur ≤ s.next := by
+  intro s
+  have h : HInv s := hrun_inv (hinv_init l first) hops hok
+  exact ⟨h.floor_cur, fun b hb => ⟨h.out_ge b hb, h.out_le b hb⟩,
+    (sysInv_hrun own l first hops hok).floor_le, h.purged_next, h.cur_next⟩
+
+/-- **Every host history is an admissible history of the broadcast-path model**: the environment
+hypothesis `RunOk` of the theorems above holds for the induced history, and the host's `Sys` is the
+result of running it. -/
+theorem host_run_admissible (own : Nat → Bool) (l : Peer) (first : Nat) (hops : List HostOp)
+    (hok : HostOk own hops) :
+    RunOk own (Sys.init l) (trace (HState.init l first) hops) ∧
+    (hrun (HState.init l first) hops).sys = run (Sys.init l) (trace (HState.init l first) hops) :=
+  ⟨runOk_trace_init own l first hops hok, hrun_sys_init l first hops⟩
+
+/-- **No self-equivocation on the wire, host level.**  No floor hypothesis. -/
+theorem wire_no_equivocation_host (own : Nat → Bool) (l : Peer) (first : Nat) (hops : List HostOp)
+    (hok : HostOk own hops) :
+    NoEquiv (hrun (HState.init l first) hops).sys.wire ∧
+    InstMonotone (hrun (HState.init l first) hops).sys.wire := by
+  rw [hrun_sys_init]
+  exact wire_no_equivocation own l _ (runOk_trace_init own l first hops hok)
+
+/-- **Record before publish, host level.** -/
+theorem record_before_publish_host (own : Nat → Bool) (l : Peer) (first : Nat) (hops : List HostOp)
+    (hok : HostOk own hops) :
+    let s := (hrun (HState.init l first) hops).sys
+    (∀ w ∈ s.wire, w ∈ s.ever) ∧ (∀ w ∈ s.wire, s.purged ≤ w.inst → w ∈ s.wal) := by
+  intro s
+  have hs : s = run (Sys.init l) (trace (HState.init l first) hops) := hrun_sys_init l first hops
+  rw [hs]
+  exact record_before_publish own l _ (runOk_trace_init own l first hops hok)
+
+/-- **The WAL re-arms the filter, host level.** -/
+theorem rearm_guards_wire_host (own : Nat → Bool) (l : Peer) (first : Nat) (hops : List HostOp)
+    (hok : HostOk own hops) :
+    let s := (hrun (HState.init l first) hops).sys
+    let f := (step s .restart).filter
+    ∀ w ∈ s.wire, s.purged ≤ w.inst →
+      w.inst ≤ f.cur ∧ (w.inst = f.cur → alookup w.key f.seen = some ⟨w.sig, f.localPID⟩) := by
+  intro s
+  have hs : s = run (Sys.init l) (trace (HState.init l first) hops) := hrun_sys_init l first hops
+  rw [hs]
+  exact rearm_guards_wire own l _ (runOk_trace_init own l first hops hok)
+
+/-- **Conflicting and stale requests are refused, host level.**  For every outstanding builder and every
+own identity, whatever the signature: the filter allows the signed message exactly when the builder is
+not for an instance older than the filter's and nothing ever recorded occupies the slot with another
+signature.  (`floor ≤ b.inst` is no longer a hypothesis: `host_floor_invariant`.) -/
+theorem request_allowed_iff_host (own : Nat → Bool) (l : Peer) (first : Nat) (hops : List HostOp)
+    (hok : HostOk own hops) (hup : (hrun (HState.init l first) hops).sys.up = true)
+    (b : Builder) (hb : b ∈ (hrun (HState.init l first) hops).out) (sender sig : Nat)
+    (hown : own sender = true) :
+    let s := (hrun (HState.init l first) hops).sys
+    let m : Msg := ⟨b.inst, sender, b.round, b.phase, sig⟩
+    (s.filter.processBroadcast m).2 = true ↔
+      s.filter.cur ≤ b.inst ∧ ∀ e ∈ s.ever, e.slot = m.slot → e.sig = sig := by
+  intro s m
+  have hF : s.floor ≤ m.inst := (hrun_inv (hinv_init l first) hops hok).out_ge b hb
+  exact ((sysInv_hrun own l first hops hok).finv hup).allow_iff m hF hown
+
+/-- **The re-armed filter decides like the filter it replaces, host level.** -/
+theorem filter_rearm_equiv_host (own : Nat → Bool) (l : Peer) (first : Nat) (hops : List HostOp)
+    (hok : HostOk own hops)
+    (hup : (hrun (HState.init l first) hops).sys.up = true)
+    (hcur : (hrun (HState.init l first) hops).sys.purged ≤ (hrun (HState.init l first) hops).sys.filter.cur)
+    (m : Msg) (hown : own m.sender = true) (hm : (hrun (HState.init l first) hops).sys.purged ≤ m.inst) :
+    ((rearm (hrun (HState.init l first) hops).sys.filter.localPID
+        (hrun (HState.init l first) hops).sys.wal).processBroadcast m).2 =
+      ((hrun (HState.init l first) hops).sys.filter.processBroadcast m).2 := by
+  have hs := hrun_sys_init l first hops
+  rw [hs] at hup hcur hm ⊢
+  exact filter_rearm_equiv own l _ (runOk_trace_init own l first hops hok) hup hcur m hown hm
+
+/-! ### Non-vacuity and sharpness, host level -/
+
+/-- A host history from the first start (empty store, instance 0): a message for instance 0; the store
+catches up to certificate 7 and the participant skips to 8; a crash after the WAL append of a message for
+instance 8; restart (at 8); the conflicting re-request (refused) and the recorded one (published); the
+purge for certificate 7 (epoch 2: the instance-0 record goes) and the trim; stop and restart (floor 2);
+a conflicting re-request (refused), a rebroadcast, a decision.  (The message for instance 8 is in the WAL
+and in `selfMessages` twice — `BroadcastMessage` appends whenever the filter allows — so the rebroadcast
+publishes it twice: same signature.) -/
+private def hhist : List HostOp :=
+  [.request 0 1, .sign 0 1 10 0, .storePut 7, .certToRunner 7, .request 0 1, .sign 1 1 20 2,
+   .restart false, .request 0 1, .sign 0 1 21 0, .sign 0 1 20 0, .finalizePurge 7 [], .finalizeTrim 7,
+   .stop, .restart false, .request 0 1, .sign 0 1 22 0, .rebroadcast 0 1, .decide]
+
+example : HostOk ownAll hhist := by decide
+
+example :
+    let s := hrun (HState.init 0 0) hhist
+    s.sys.wire = [⟨0, 1, 0, 1, 10⟩, ⟨8, 1, 0, 1, 20⟩, ⟨8, 1, 0, 1, 20⟩, ⟨8, 1, 0, 1, 20⟩] ∧
+    s.sys.wal = [⟨8, 1, 0, 1, 20⟩, ⟨8, 1, 0, 1, 20⟩] ∧ s.sys.purged = 2 ∧ s.sys.floor = 2 ∧
+    s.latest = some 8 ∧ s.cur = 9 ∧ s.out = [⟨8, 0, 1⟩] := by decide
+
+private def opEqB : Op → Op → Bool
+  | .broadcast m c, .broadcast m' c' => m == m' && c == c'
+  | .rebroadcast i r p, .rebroadcast i' r' p' => i == i' && r == r' && p == p'
+  | .receive p m, .receive p' m' => p == p' && m == m'
+  | .restart, .restart => true
+  | .stop, .stop => true
+  | .purge k keep, .purge k' keep' => k == k' && keep == keep'
+  | .trim c, .trim c' => c == c'
+  | _, _ => false
+
+private def opsEqB : List Op → List Op → Bool
+  | [], [] => true
+  | a :: as, b :: bs => opEqB a b && opsEqB as bs
+  | _, _ => false
+
+/-- the induced history of the broadcast-path model, which is admissible (as `host_run_admissible` says) -/
+example :
+    let ops : List Op :=
+      [.broadcast ⟨0, 1, 0, 1, 10⟩ 0, .broadcast ⟨8, 1, 0, 1, 20⟩ 2, .restart, .broadcast ⟨8, 1, 0, 1, 21⟩ 0,
+       .broadcast ⟨8, 1, 0, 1, 20⟩ 0, .purge 2 [], .trim 7, .stop, .restart, .broadcast ⟨8, 1, 0, 1, 22⟩ 0,
+       .rebroadcast 8 0 1]
+    opsEqB (trace (HState.init 0 0) hhist) ops = true ∧ RunOk ownAll (Sys.init 0) ops := by decide
+
+/-- **Sharpness of the start instance.**  The same model with a runner that starts the participant at
+instance 0 instead of `latest + 1`: message for instance 0; the store reaches certificate 7; restart;
+purge for certificate 7 (epoch 2, the closed file with the instance-0 record is deleted); restart; the
+participant re-runs instance 0 with another value.  All hypotheses hold, the wire equivocates — whereas
+with the real start instance the same history is harmless.  `purged + 6 ≤ next = cur` at a restart is
+what carries the theorems. -/
+example :
+    let ops : List HostOp := [.request 0 1, .sign 0 1 10 0, .storePut 7, .stop, .restart false,
+                              .finalizePurge 7 [], .stop, .restart false, .request 0 1, .sign 0 1 11 0]
+    HostOk ownAll ops ∧
+    (hrunWith (fun _ => 0) (HState.init 0 0) ops).sys.wire = [⟨0, 1, 0, 1, 10⟩, ⟨0, 1, 0, 1, 11⟩] ∧
+    noEquivB (hrunWith (fun _ => 0) (HState.init 0 0) ops).sys.wire = false ∧
+    (hrun (HState.init 0 0) ops).sys.wire = [⟨0, 1, 0, 1, 10⟩, ⟨8, 1, 0, 1, 11⟩] := by decide
+
+/-- **Sharpness of `restart false`.**  `RequestBroadcast` only queues a builder in `F3.outboundMessages`;
+the embedder signs it later and `F3.Broadcast` hands it to whatever runner is current.  If the same `F3`
+object is stopped and started again (`restart true`), a builder of the previous run survives: instance 0
+published; restart (store empty: instance 0 again) and the re-proposal queued but not yet signed; the
+store reaches certificate 7, the purge for it deletes the instance-0 record; stop, start on the same
+object; the embedder signs the stale builder.  The re-armed filter knows nothing of instance 0. -/
+example :
+    let ops : List HostOp := [.request 0 1, .sign 0 1 10 0, .stop, .restart false, .request 0 1,
+                              .storePut 7, .certToRunner 7, .finalizePurge 7 [], .stop, .restart true,
+                              .sign 0 1 11 0]
+    ¬ HostOk ownAll ops ∧ noEquivB (hrun (HState.init 0 0) ops).sys.wire = false ∧
+    (hrun (HState.init 0 0) ops).sys.floor = 2 ∧ (hrun (HState.init 0 0) ops).cur = 8 := by decide
+
+end HostLevel
 
 end F3.Props.C12
